@@ -113,7 +113,9 @@ func (rs *runState) runC15Case(idx int, cs c15Case) *violationT {
 		{name: "gomaxprocs-1", dir: "d", files: map[string]string{"s/m_target.go": target, "s/z_last.go": others[0]}, env: []string{"GOMAXPROCS=1"}},
 		{name: "stale-output-and-rerun", dir: "e", files: map[string]string{"s/m_target.go": target}, runs: 2, pre: func(dir string) {
 			// outputs of an earlier run of a DIFFERENT program are present on disk
-			_ = writeFiles(dir, map[string]string{"o/m_target.go": others[0], "o_tmp/m_target.go": others[1], "o/stale_extra.go": "package s\n"})
+			_ = writeFiles(dir, map[string]string{"o/m_target.go": others[0], "o_tmp/m_target.go": others[1], "o/stale_extra.go": "package s\n",
+				// debris of a killed run in the temporary directory: no source file derives it, it must not reach the output
+				"o_tmp/zz_stale.go": "package s\n\nimport ʂɘʠ \"github.com/goghcrow/go-co/seq\"\n\nfunc ZzStale() ʂɘʠ.Iterator[int] {\n\treturn ʂɘʠ.Start[int](ʂɘʠ.Normal[int]())\n}\n"})
 		}},
 	}
 	outputs := map[string]string{}
@@ -161,6 +163,9 @@ func (rs *runState) runC15Case(idx int, cs c15Case) *violationT {
 			outputs[key] = string(b)
 			groupOf[key] = c.group
 			order = append(order, key)
+		}
+		if _, err := os.Stat(filepath.Join(dir, "o", "zz_stale.go")); err == nil {
+			return &violationT{Kind: "text", Signature: "stale-temp-file-copied", What: fmt.Sprintf("configuration %s: a file left in the temporary directory by an earlier (killed) run was optimised and written to the output directory as o/zz_stale.go", c.name)}
 		}
 		if _, err := os.Stat(filepath.Join(dir, "o_tmp")); err == nil && c.name != "stale-output-and-rerun" {
 			// leftover temp dir is C16's concern in go:generate mode; for Compile it must be removed too
@@ -451,9 +456,13 @@ func (rs *runState) runC16Layout(idx int, lay c16Layout) *violationT {
 		files[pkgDir+"plain_co.go"] = "//go:build co\n\npackage " + pkgName + "\n\nfunc PlainHelper() int { return 2 }\n"
 	}
 	if lay.Sibling {
-		files[pkgDir+"types.go"] = "package " + pkgName + "\n\ntype Item struct{ N int }\n\nfunc MkItem(n int) Item { return Item{N: n * 2} }\n"
-		files[pkgDir+"items_co.go"] = coHeader("package " + pkgName + "\n\nimport . \"github.com/goghcrow/go-co\"\n\nfunc Items(n int) Iter[Item] {\n\tfor i := 0; i < n; i++ {\n\t\tYield(MkItem(i))\n\t}\n\treturn nil\n}\n\nfunc SumItems(n int) (s int) {\n\tfor it := range Items(n) {\n\t\ts += it.N\n\t}\n\treturn\n}\n")
-		files[pkgDir+"items_test.go"] = "package " + pkgName + "\n\nimport \"testing\"\n\nfunc TestItems(t *testing.T) {\n\tif got := SumItems(4); got != 12 {\n\t\tt.Fatalf(\"SumItems(4) = %d\", got)\n\t}\n}\n"
+		files[pkgDir+"types.go"] = "package " + pkgName + "\n\ntype Item struct{ N int }\n\nfunc MkItem(n int) Item { return Item{N: n * 2} }\n\n" +
+			"type Shape interface{ Area() int }\n\ntype Sq struct{ S int }\n\nfunc (s Sq) Area() int { return s.S * s.S }\n"
+		files[pkgDir+"items_co.go"] = coHeader("package " + pkgName + "\n\nimport . \"github.com/goghcrow/go-co\"\n\nfunc Items(n int) Iter[Item] {\n\tfor i := 0; i < n; i++ {\n\t\tYield(MkItem(i))\n\t}\n\treturn nil\n}\n\nfunc SumItems(n int) (s int) {\n\tfor it := range Items(n) {\n\t\ts += it.N\n\t}\n\treturn\n}\n\n" +
+			// a closure of the eta-reducible FORM whose type differs from the callee's, over types of a plain sibling file
+			// (which are invalid types while the optimise stage looks at the temporary directory)
+			"func area(s Shape) int { return s.Area() }\n\nvar AreaSq func(Sq) int = func(s Sq) int { return area(s) }\n")
+		files[pkgDir+"items_test.go"] = "package " + pkgName + "\n\nimport \"testing\"\n\nfunc TestItems(t *testing.T) {\n\tif got := SumItems(4); got != 12 {\n\t\tt.Fatalf(\"SumItems(4) = %d\", got)\n\t}\n\tif got := AreaSq(Sq{3}); got != 9 {\n\t\tt.Fatalf(\"AreaSq = %d\", got)\n\t}\n}\n"
 		expected[pkgDir+"items.go"] = true
 	}
 	// a co file that is edited between two runs of the tool (see the regeneration step below); nothing refers to it
@@ -530,6 +539,10 @@ func (rs *runState) runC16Layout(idx int, lay c16Layout) *violationT {
 		return nil
 	}
 	before := snapshot(base)
+	// debris of a killed earlier run: a temporary directory with a generated-looking file that no source file derives
+	staleTmp := filepath.Join(root, pkgDir+"_co_tmp")
+	_ = os.MkdirAll(staleTmp, 0o755)
+	_ = os.WriteFile(filepath.Join(staleTmp, "zz_stale.go"), []byte("package "+pkgName+"\n\nimport ʂɘʠ \"github.com/goghcrow/go-co/seq\"\n\nfunc ZzStale() ʂɘʠ.Iterator[int] {\n\treturn ʂɘʠ.Start[int](ʂɘʠ.Normal[int]())\n}\n"), 0o644)
 	gofile := "f0_co.go"
 	if len(lay.Names) > 0 && lay.Names[0] != "" {
 		gofile = lay.Names[0] + "_co.go"
